@@ -180,6 +180,14 @@ func (l *queue) SetMaxSegmentSize(size int64) error {
 	}
 
 	if l.tail.diskUsage() >= l.maxSegmentSize {
+		// Only the tail segment is ever flushed: write out what it has buffered before
+		// it stops being the tail, or those blocks would be stuck behind newer ones.
+		l.tail.mu.Lock()
+		err := l.tail.flush()
+		l.tail.mu.Unlock()
+		if err != nil {
+			return err
+		}
 		segment, err := l.addSegment()
 		if err != nil {
 			return err
